@@ -302,3 +302,18 @@ Proof.
       rewrite cyc_settle_wait in IH by (try lia; reflexivity). cbn [fst] in IH.
       destruct IH as [I1 I2]. split; [exact I1|]. cbn [app length]. rewrite I2. reflexivity.
 Qed.
+
+(* the mock clock with several pending timers *)
+Lemma clock_serves_exactly_the_due pending T i :
+  In i (fst (clock_set pending T)) <-> exists d, In (i, d) pending /\ d <= T.
+Proof.
+  unfold clock_set. cbn [fst]. rewrite in_map_iff. split.
+  - intros [[i' d] [E H]]. cbn in E. subst i'. apply filter_In in H. destruct H as [H L]. cbn in L.
+    exists d. split; auto. apply Z.leb_le. exact L.
+  - intros [d [H L]]. exists (i, d). split; auto. apply filter_In. split; auto. cbn. apply Z.leb_le. exact L.
+Qed.
+Lemma clock_keeps_the_rest pending T i d :
+  In (i, d) (snd (clock_set pending T)) <-> In (i, d) pending /\ T < d.
+Proof.
+  unfold clock_set. cbn [snd]. rewrite filter_In. cbn. rewrite negb_true_iff, Z.leb_gt. tauto.
+Qed.
